@@ -47,6 +47,21 @@ __all__ = [
 ]
 
 
+def _keyring_size(duration: float, dt: float) -> int:
+    """
+    Number of timesteps spanned by a timed duration
+
+    This is ``ceil(duration/dt)``, except that a ratio which is an integer up to floating point
+    error is treated as that integer (e.g. ``(5/12)/(1/12)`` evaluates to ``5.000000000000001``
+    which must give 5 rather than 6 timesteps)
+
+    """
+    n = duration / dt
+    if abs(n - round(n)) < 1e-9 * max(1.0, abs(n)):
+        return int(round(n))
+    return math.ceil(n)
+
+
 class BadInitialization(Exception):
     """
     Error for invalid conditions
@@ -838,7 +853,7 @@ class TimedCompartment(Compartment):
         self.dt = dt
         assert np.all(self.parameter.vals == self.parameter.vals[0]), "Duration parameter value cannot vary over time"
         duration = self.parameter.vals[0] * self.parameter.timescale  # nb. `vals` already includes the calibration `scale_factor`
-        self._vals = np.empty((max(1, math.ceil(duration / dt)), tvec.size), order="F")  # Fortran/column-major order should be faster for summing over lags to get `vals`
+        self._vals = np.empty((max(1, _keyring_size(duration, dt)), tvec.size), order="F")  # Fortran/column-major order should be faster for summing over lags to get `vals`
         self._vals.fill(np.nan)
 
     def resolve_outflows(self, ti: int) -> None:
@@ -1499,7 +1514,7 @@ class TimedLink(Link):
             parameter = self.pop.par_lookup[self.source.duration_group]
             assert np.all(parameter.vals == parameter.vals[0]), "Duration parameter value cannot vary over time"
             duration = parameter.vals[0] * parameter.timescale  # nb. `vals` already includes the calibration `scale_factor`
-            self._vals = np.empty((math.ceil(duration / dt), tvec.size), order="F")  # Fortran/column-major order should be faster for summing over lags to get `vals`
+            self._vals = np.empty((_keyring_size(duration, dt), tvec.size), order="F")  # Fortran/column-major order should be faster for summing over lags to get `vals`
         self._vals.fill(np.nan)
 
     def update(self, ti: int, converted_frac: float) -> None:
